@@ -33,6 +33,12 @@ class Check:
     def lean(self, modules, theorems, generated=0, extra_targets=(), audit_ns=()):
         """Build + audit.  `generated` = number of generated obligations contained in the built
         modules (counted by the extractor) in addition to the listed theorems."""
+        if not getattr(self, "_tiec_done", False):
+            self._tiec_done = True
+            import tiec
+            m2, t2 = tiec.for_property(self)
+            modules = list(modules) + [m for m in m2 if m not in modules]
+            theorems = list(theorems) + [t for t in t2 if t not in theorems]
         r = C.lean_gate(modules, theorems, extra_targets, audit_ns)
         self.obligations += r["obligations"] + generated
         self.discharged += r["discharged"] + (generated if r["ok"] or not any(
